@@ -185,8 +185,11 @@ class Joiner:
         self.dead_in_a = set()
         self.dead_in_b = set()
         diffs = [s for s, iv in A.iv.items() if s in B.iv and B.iv[s] != iv]
+        self._live = {}
         if diffs:
             la, lb = A.live_syms(), B.live_syms()
+            self._live[id(A)] = la
+            self._live[id(B)] = lb
             for s in diffs:
                 if s in la and s not in lb:
                     self.dead_in_b.add(s)
@@ -253,7 +256,9 @@ class Joiner:
         for X in (A, B):
             lost = [k for k in X.lin if k not in J.lin and k not in phi_ids]
             if lost:
-                live = X.live_syms()
+                live = self._live.get(id(X))
+                if live is None:
+                    live = self._live[id(X)] = X.live_syms()
                 extra = []
                 for k in lost:
                     if k in live:
@@ -392,7 +397,7 @@ class Joiner:
                     for c in (1, 0, -1):
                         ga = A.term(a).sub(ta).scale(sign).addc(c)
                         gb = B.term(b).sub(tb).scale(sign).addc(c)
-                        if A.entails(ga) and B.entails(gb):
+                        if A.entails(ga, False) and B.entails(gb, False):
                             self._new_facts.append(Lin({p: 1}).sub(J.term(t)).scale(sign).addc(c))
                             break
         for i in range(len(ints)):
@@ -405,7 +410,7 @@ class Joiner:
                     for c in (1, 0, -1):
                         ga = A.term(pa).sub(A.term(qa)).scale(sign).addc(c)
                         gb = B.term(pb).sub(B.term(qb)).scale(sign).addc(c)
-                        if A.entails(ga) and B.entails(gb):
+                        if A.entails(ga, False) and B.entails(gb, False):
                             self._new_facts.append(Lin({p: 1}).sub(Lin({q: 1})).scale(sign).addc(c))
                             break
 
